@@ -7,6 +7,7 @@ pub mod front;
 pub mod mem;
 pub mod nodes;
 pub mod replay;
+pub mod stress;
 pub mod trace;
 
 pub mod c18;
